@@ -32,6 +32,14 @@ def quant (k : ℕ) (q : ℚ) : ℚ := ((q * (2 : ℚ) ^ k).floor : ℚ) / (2 : 
 
 def gaussQ (u : ℚ) : ℚ := quant 80 (floatToRat (gaussF (ratToFloat u)))
 
+/-- Gaussian weights of a whole window, normalised by the largest one before rounding to
+multiples of `2^-80` (the estimate is invariant under a common factor of the weights, and
+a window whose weights are all tiny must keep their ratios). -/
+def gaussWeights (n : ℕ) (u : ℕ → ℚ) : Array ℚ :=
+  let wf : Array Float := Array.ofFn (n := n) fun i => gaussF (ratToFloat (u i.val))
+  let wmax := wf.foldl (fun a b => if a < b then b else a) 0.0
+  if wmax == 0.0 then wf.map fun _ => (0 : ℚ) else wf.map fun w => quant 80 (floatToRat (w / wmax))
+
 def rootF (s : ℚ) : ℚ := quant 48 (floatToRat (Float.sqrt (ratToFloat s)))
 
 def parseCK? : String → Option CKernel
@@ -71,7 +79,7 @@ def answerTokens (toks : List String) : String :=
       let ya := y.toArray
       if name = "gaussian" then
         showOpts (q.map fun x0 =>
-          let wa := tabA n fun i => gaussQ (|rd xa i - x0| / h)
+          let wa := gaussWeights n fun i => |rd xa i - x0| / h
           lpEstimate1W (rd wa) h d n (rd xa) (rd ya) x0)
       else
       match parseCK? name with
@@ -90,7 +98,7 @@ def answerTokens (toks : List String) : String :=
       let Q := q1.zip q2
       if name = "gaussian" then
         showOpts (Q.map fun q =>
-          let wa := tabA n fun i => gaussQ (rootF (sqDist2 (rd x1a i) (rd x2a i) q.1 q.2) / h)
+          let wa := gaussWeights n fun i => rootF (sqDist2 (rd x1a i) (rd x2a i) q.1 q.2) / h
           lpEstimate2W (rd wa) h d n (rd x1a) (rd x2a) (rd ya) q.1 q.2)
       else if name = "tricube" then
         showOpts (Q.map fun q =>
